@@ -260,6 +260,16 @@ def _some_payload(v):
     return ("payload", "Some", v), ("islet", "Some(_)", v)
 
 
+def _list_items(nf):
+    """items of a sequence-valued normal form, in list-builder notation: ('item', v) | ('star', src, v[, 'conditional'])"""
+    if isinstance(nf, tuple) and nf[0] == "list":
+        return list(nf[1])
+    if isinstance(nf, tuple) and nf[0] == "tuple":
+        return [("item", x) for x in nf[1]]
+    src, val, conds = iter_view(nf)
+    return [("star", src, val) if not conds else ("star", src, val, "conditional")]
+
+
 def iter_view(it):
     """(source, element value, conditions): an iterator chain `src.filter(p).map(f).filter_map(g)` read as a loop over `src` whose
     body sees `element value` when all `conditions` [(cond_nf, True)] hold. Adaptors that change which elements are visited in a
@@ -527,6 +537,8 @@ class NF:
             path = H.callee_path(e) or "?"
             decl = H.decl_path(e) or path
             args = tuple(self.nf(a, env) for a in e["args"])
+            if (decl.endswith("iter::once") or decl.endswith("once::once")) and len(args) == 1:
+                return ("list", (("item", args[0]),))
             f0 = H.strip(e["f"])
             if f0.get("k") == "Path" and f0.get("res") == "local":
                 fv = env.get(f0["id"])
@@ -650,12 +662,14 @@ class NF:
             return None
         return None
 
-    def _string_builder(self, pat, rest, env):
+    def _string_builder(self, pat, rest, env, start=None):
         """text-builder idiom: `let mut s = String::new();` followed by `s.push_str(x)` statements and loops of the form
         `for (i, x) in it.enumerate() { if i > 0 { s.push_str(SEP) } s.push_str(f(x)) }` (or without separator). The value is the
         concatenation, loops as joins. None when the local is touched in any other way."""
         lid = pat["id"]
         parts = []
+        if start is not None:
+            parts = list(start[1]) if start[0] == "format" else [("lit", start[1])]
         env2 = env.child()
 
         def text_of(e, en):
@@ -667,6 +681,9 @@ class NF:
             return [("hole", v, "display", "?")]
         for st in rest:
             k = st.get("k")
+            if k == "Let" and st["pat"].get("k") == "Wild" and st.get("init") is not None:
+                st = {"k": "Semi", "e": st["init"]}   # `let _ = write!(s, ..);`
+                k = "Semi"
             if k == "Let":
                 if self._mutations(lid, [st]):
                     return None
@@ -703,6 +720,8 @@ class NF:
                 sep = ""
                 pieces = []
                 for j, x in enumerate(stmts):
+                    if x.get("k") == "Let" and x["pat"].get("k") == "Wild" and x.get("init") is not None:
+                        x = {"k": "Semi", "e": x["init"]}
                     if x.get("k") == "Let":
                         if self._mutations(lid, [x]):
                             return None
@@ -745,8 +764,13 @@ class NF:
         lid = pat["id"]
         if init[0] == "call" and str(init[1]).endswith(("Vec::<T>::new", "vec::Vec::<T>::new")):
             init = ("list", ())
+        is_string = (H.strip(pat).get("ty") or "").replace(" ", "") in ("std::string::String", "String", "alloc::string::String")
         if init[0] == "call" and str(init[1]).endswith(("String::new", "string::String::new")) and not init[2]:
             sb = self._string_builder(pat, rest, env)
+            if sb is not None:
+                return sb
+        elif is_string and (init[0] == "lit" and isinstance(init[1], str) or init[0] == "format"):
+            sb = self._string_builder(pat, rest, env, start=init)
             if sb is not None:
                 return sb
         if init[0] != "list":
@@ -847,6 +871,9 @@ class NF:
         args = e["args"]
         if name in IDENTITY_METHODS and not args:
             return recv
+        if name == "chain" and len(args) == 1 and "Iterator" in (e.get("path") or ""):
+            # `a.chain(b)`: the elements of a, then those of b
+            return ("list", tuple(_list_items(recv)) + tuple(_list_items(self.nf(args[0], env))))
         if name in ("map", "and_then", "is_some_and", "is_ok_and", "map_or", "map_or_else", "filter", "inspect", "find", "any",
                     "position", "filter_map", "unwrap_or_else", "ok_or_else", "for_each"):
             if "Iterator" in (e.get("path") or "") or (recv[0] == "call" and str(recv[1]).endswith(("children", "split", "chars", "lines"))):
